@@ -7,6 +7,7 @@ import numpy as np
 from .. import lib, ref
 from ..ref import Graph
 
+OPTIMISED_LAST_SHARD = True  # the last shard runs under python -O (no assert statements)
 LEVEL = "exploration"
 TECHNIQUE = 'runtime monitoring: every public graph query compared with an adjacency-set reference model; exhaustive over all structures with <=12 lattice edges x all cells x all ordered pairs, random structures to 15x15 incl. oblong, valid/broken/out-of-bounds/empty candidate paths'
 RULE = ("nodes_connected, get_coord_neighbors, coord_degrees, gen_connected_component_from, is_valid_path, get_nodes, as_adj_list / "
